@@ -1,7 +1,8 @@
 """C15 -- secondary-structure codes follow the DSSP rules on the backbone H-bonds.
 
 Model   : coq/Dssp/Model.v  (transliteration of dssp.cpp + dssp.py, pure function of
-          (n, chain ids, skip mask, H-bond table, kappa>70 flags)); tables regenerated into coq/Gen/DsspTables.v.
+          (n, chain ids, skip mask, H-bond table, kappa>70 flags)); coq/Dssp/Bend.v (kappa > 70 degrees on exact CA
+          coordinates; skip mask from atom names via coq/Hbond/KsWrap.v); tables regenerated into coq/Gen/DsspTables.v.
 Theorems: coq/Props/C15.v  (the DSSP rules as characterisations of the model's output).
 Tie     : (a) harness/shims/dssp_shim.cpp #includes the working tree's dssp.cpp and replaces kabsch_sander by a
           table reader, so mdtraj's dssp() runs on synthetic H-bond tables: exhaustive small tables, random tables
@@ -14,29 +15,33 @@ import os
 import re
 
 import common
-from common import cnat, cbool, clist, cstr
+from common import cnat, cbool, clist, cstr, cz
 
 LEVEL = "proof"
 THEOREMS = "Props/C15.v"
-EXTRA_TARGETS = ("Gen/DsspTables.vo",)
+EXTRA_TARGETS = ("Gen/DsspTables.vo", "Dssp/Bend.vo")
 EXTS = ["_geometry"]
 RULE = ("synthetic stream: H-bond tables (<=2 acceptors per donor) x chain partition x missing-atom mask x bend angles, "
         "exhaustive for small n / few bonds, random with planted helix(3,4,5)/hairpin/parallel/bulge motifs up to 40 "
         "residues and 3 chains, 1..3 frames per call; a table is non-trivial when the model output contains a code "
         "other than blank; end-to-end stream: tests/data proteins x coordinate noise x residue window x deleted "
-        "backbone atoms x 1..6 frames x simplified in {T,F}; call histories: on ONE Trajectory/Topology object compute_dssp / "
+        "backbone atoms x residues renamed to names outside mdtraj's amino-acid table (HIE CYX NALA LIG ...) x coinciding CA atoms x bend angles set 0.004..0.1 degree off the threshold "
+        "x 1..6 frames x simplified in {T,F}; call histories: on ONE Trajectory/Topology object compute_dssp / "
         "kabsch_sander calls are interleaved with in-place renames of backbone atoms and residues, every call compared "
         "with the model of the topology as it is at that moment; distinct by hash of the case")
 TRUSTED = ["harness/shims/dssp_shim.cpp (feeds tables to mdtraj's dssp(); builds CA coordinates with prescribed kappa)",
-           "harness/impl/dssp_impl.py (end to end: residues lacking N/CA/C/O, chain index and kappa>70deg are computed "
-           "there from the topology and float64 CA coordinates; frames with a kappa within 2e-3 rad of 70deg are excluded)",
+           "harness/impl/dssp_impl.py (end to end: hands over residue / atom names, chain index per residue, md.kabsch_sander's "
+           "bonds and the float32 CA coordinates converted exactly to integers in a common power-of-two unit)",
            "generator harness/props/C15.py; comparison by vm_compute inside coqc"]
 ASSUMPTIONS = ["the H-bond pattern is the one md.kabsch_sander reports for the same frame (C14 covers its correctness)",
                "std::sort on bridges is modelled as a stable sort; cases with >16 bridges and equal sort keys "
                "(order unspecified in C++) are excluded from exact comparison and counted",
-               "the bend angle test kappa>70deg is float geometry outside the model (input flag)"]
+               "end to end the bend test kappa>70deg is decided by the model on exact coordinates (proved enclosure of cos 70deg); "
+               "frames in which a bend flag that matters lies within 1/1000 degree of the threshold are excluded and counted "
+               "(mdtraj evaluates the angle in float32); in the synthetic-table stream the bend enters as a flag"]
 
 SHIM = os.path.join(common.VERIF, "harness", "shims", "dssp_shim.cpp")
+NONTABLE_NAMES = ["HIE", "HID", "CYX", "ASH", "HSD", "NALA", "CALA", "LIG", "XYZ"]
 E2E_FILES = ["1vii.pdb", "bpti.pdb", "1bpi.pdb", "2EQQ.pdb", "4OH9.pdb", "1am7_protein.pdb", "aaqaa-wat.pdb",
              "1ncw.pdb.gz", "1vii_sustiva_water.pdb"]
 
@@ -311,7 +316,7 @@ def build_e2e(ctx):
             dele = []
             if v > 0 and rng.random() < 0.5:
                 for _ in range(rng.randint(1, 3)):
-                    dele.append([base + rng.randrange(n_eff), rng.choice(["N", "CA", "C", "O", "O", "C"])])
+                    dele.append([rng.randrange(n_eff), rng.choice(["N", "CA", "C", "O", "O", "C"])])
             nfr = 1 if v == 0 else rng.choice([1, 2, 3, 5, 6])
             sched = None
             if nfr >= 3 and rng.random() < 0.7:
@@ -322,6 +327,20 @@ def build_e2e(ctx):
                           "noise": 0.0 if v == 0 else rng.choice([0.0, 0.005, 0.02, 0.05, 0.1]),
                           "ramp": rng.random() < 0.5, "seed": rng.randrange(1 << 30), "delete": dele,
                           "keep_residues": keep})
+            if v > 0 and rng.random() < 0.5:
+                # residues renamed (in memory) to names outside mdtraj's amino-acid table, backbone untouched: taking part
+                # in H-bonds / DSSP is decided by the backbone atoms present, not by the residue name
+                cases[-1]["rename_residues"] = [[r, rng.choice(NONTABLE_NAMES)]
+                                                for r in sorted(rng.sample(range(n_eff), min(n_eff, rng.randint(1, 4))))]
+            if v > 0 and rng.random() < 0.6:
+                # bend angles a few 1/1000 .. 1/10 degree off the 70 degree threshold (outside the 1/1000 degree guard band)
+                aims = []
+                for r in range(rng.randint(2, 7), n_eff - 2, rng.randint(6, 9)):
+                    aims.append([r, rng.choice([-1, 1]) * rng.choice([0.004, 0.01, 0.03, 0.1])])
+                cases[-1]["aim_kappa"] = aims
+            if v > 0 and rng.random() < 0.2:
+                # coinciding CA atoms (CA of r+2 exactly on CA of r): kappa is 0/0 in the C code
+                cases[-1]["collapse_ca"] = sorted(rng.sample(range(n_eff), min(n_eff, rng.randint(1, 3))))
     # call histories on ONE Trajectory/Topology: backbone atoms renamed in place between calls (C-terminal O <-> OT1,
     # CA <-> CX, ...): after every edit the result must be the one of the topology as it is now
     for k in range(5 if quick else 150):
@@ -350,7 +369,7 @@ def build_e2e(ctx):
                         steps.append({"op": "rename_atom", "res": r, "old": orig, "new": swap[orig]})
                         state[(r, orig)] = swap[orig]
                 else:
-                    steps.append({"op": "rename_residue", "res": rng.randrange(W), "name": rng.choice(["PRO", "ALA", "XYZ"])})
+                    steps.append({"op": "rename_residue", "res": rng.randrange(W), "name": rng.choice(["PRO", "ALA", "XYZ", "HIE", "CYX"])})
             steps.append({"op": "call"})
         cases.append({"file": f, "frame": rng.randrange(20), "n_frames": rng.randint(1, 2), "schedule": None,
                       "noise": rng.choice([0.0, 0.01]), "ramp": False, "seed": rng.randrange(1 << 30), "delete": [],
@@ -380,6 +399,7 @@ def coq_case(simp, n, chain, skip, hb, geom):
 
 
 CASE_TY = "bool * nat * list nat * list bool * list (list nat) * list bool"
+XYZ_TY = "list nat * list (string * list (nat * string)) * list (list nat) * list (option (Z * Z * Z))"
 
 
 def check_model(ctx, jobs, fn):
@@ -471,12 +491,71 @@ def run_tables(ctx, tabs, spec=False):
         ce["excluded_sort_order_sensitive"] = ce.get("excluded_sort_order_sensitive", 0) + excluded
 
 
+def eval_xyz_groups(ctx, groups, fn):
+    """groups: list of (prelude text with shared definitions, [(coq input, expected list of str)]).  One coqc file per
+    group, up to 8 in parallel; per group the model is evaluated once per job (vm_compute inside coqc) and three index
+    lists are printed: mismatches, abstentions (a bend flag that matters within the guard band), sort-order sensitive.
+    -> list of (bad, excluded, sensitive) sets per group, or None after reporting a break."""
+    import subprocess
+    files = []
+    for gi, (prelude, jobs) in enumerate(groups):
+        lines = ["From Coq Require Import ZArith List String Bool Ascii.", "Import ListNotations.", "Open Scope nat_scope.",
+                 "Set Printing Depth 1000000.", "Set Printing Width 200.",
+                 "Require Import MD.Hbond.KsWrap MD.Dssp.Model MD.Dssp.Bend.", prelude,
+                 "Definition cases : list (nat * (%s) * (list string * list string)) := [" % XYZ_TY,
+                 ";\n".join("(%d%%nat, %s, (%s, %s))" % (j, a, clist(ef, cstr), clist(es, cstr)) for j, (a, (ef, es)) in enumerate(jobs)),
+                 "].",
+                 # every frame is evaluated ONCE (both output alphabets); the three index lists share the results
+                 "Eval vm_compute in (let rs := map (fun c => (fst (fst c), %s (snd (fst c)), snd c)) cases in" % fn,
+                 ' let bad := map (fun r => fst (fst r)) (filter (fun r => negb (check_frame (snd (fst r)) (snd r))) rs) in',
+                 ' let exc := map (fun r => fst (fst r)) (filter (fun r => frame_excluded (snd (fst r))) rs) in',
+                 ' (("MISMATCH"%string, List.length rs, bad, "NBAD"%string, List.length bad),',
+                 '  ("EXCLUDED"%string, List.length rs, exc, "NEXC"%string, List.length exc))).',
+                 "Definition sen := map (fun c => fst (fst c)) (filter (fun c => run_sensitive_xyz (snd (fst c))) cases).",
+                 'Eval vm_compute in ("SENSITIVE"%string, List.length cases, sen, "NSEN"%string, List.length sen).']
+        path = os.path.join(ctx.tmp, "xyz_%d.v" % gi)
+        with open(path, "w") as fh:
+            fh.write("\n".join(lines) + "\n")
+        files.append((gi, path))
+    out, errors, running, todo = {}, [], [], list(files)
+
+    def reap(pr, gi):
+        o = pr.communicate()[0]
+        if pr.returncode != 0:
+            errors.append(o[-3000:])
+            return
+        got = []
+        for tag, ntag in (("MISMATCH", "NBAD"), ("EXCLUDED", "NEXC"), ("SENSITIVE", "NSEN")):
+            m = re.search(r'\("%s"%%string,\s*(\d+)(?:%%nat)?,\s*(\[.*?\]|nil)\s*,\s*"%s"%%string,\s*(\d+)' % (tag, ntag), o, re.S)
+            if not m or int(m.group(1)) != len(groups[gi][1]):
+                errors.append("unparsed coqc output (%s): %s" % (tag, o[-1500:]))
+                return
+            found = {int(x) for x in re.findall(r"\d+", m.group(2))}
+            if len(found) != int(m.group(3)):
+                errors.append("index list elided by the printer (%s)" % tag)
+                return
+            got.append(found)
+        out[gi] = tuple(got)
+    while todo or running:
+        while todo and len(running) < 8:
+            gi, path = todo.pop(0)
+            pr = subprocess.Popen(["timeout", "900", "coqc", "-Q", common.COQ, "MD", path], cwd=ctx.tmp,
+                                  stdout=subprocess.PIPE, stderr=subprocess.STDOUT, text=True)
+            running.append((pr, gi))
+        pr, gi = running.pop(0)
+        reap(pr, gi)
+    if errors:
+        ctx.break_("correspondence:coqc-evaluation", "\n".join(errors))
+        return None
+    return [out[gi] for gi in range(len(groups))]
+
+
 def run_e2e(ctx, cases, spec=False):
     if not cases:
         return
     sfx = "_spec" if spec else ""
     res = ctx.run_impl("dssp_impl.py", {"repo": common.REPO, "tmp": ctx.tmp, "shim": SHIM, "e2e": cases})["e2e"]
-    jobs, where = [], []
+    ctx.log("e2e: implementation done")
     excluded = 0
     flat = []
     for ci, (c, r) in enumerate(zip(cases, res)):
@@ -484,6 +563,10 @@ def run_e2e(ctx, cases, spec=False):
             flat += [(ci, c, snap, k) for k, snap in enumerate(r["snapshots"])]
         else:
             flat.append((ci, c, r, None))
+    # one group (= one coqc file) per observed object state: names, chain ids, H-bond tables and CA coordinates are
+    # defined once and shared by the jobs (frames x simplified) of that state
+    groups, wheres = [], []
+    cav = lambda v: "None" if v is None else "(Some (%s, %s, %s))" % tuple(cz(c) for c in v)
     for ci, c, r, snap_no in flat:
         n = r["n"]
         F = len(r["frames"])
@@ -493,40 +576,53 @@ def run_e2e(ctx, cases, spec=False):
                      observed=[r["shape_full"], r["shape_simp"]], expected=[F, n], tags={"stage": "e2e", "what": "shape"})
             continue
         image_oracle(ctx, dict(c, kind="e2e"), [fr["full"] for fr in r["frames"]], [fr["simp"] for fr in r["frames"]], "e2e")
+        resd, idx = [], 0
+        for rname, atoms in r["names"]:
+            # (the atom indices are not read by the DSSP model, only the names are: 0 keeps the unary nat literals small)
+            resd.append("(%s, %s)" % (cstr(rname), clist(["(%s, %s)" % (cnat(0), cstr(a)) for k, a in enumerate(atoms)])))
+            idx += len(atoms)
+        prelude = ["Definition names_x : list (string * list (nat * string)) := %s." % clist(resd),
+                   "Definition chain_x : list nat := %s." % clist(r["chain"], cnat)]
+        jobs, where = [], []
         for fi, fr in enumerate(r["frames"]):
             if any(set(x) - {" ", "NA", "C"} for x in (fr["full"],)):
                 nontriv = True
-            if any(g is None for g in fr["geom"]):
+            prelude.append("Definition hb_%d : list (list nat) := %s." % (fi, clist([clist(x, cnat) for x in fr["hb"]])))
+            prelude.append("Definition ca_%d : list (option (Z * Z * Z)) := %s." % (fi, clist(fr["ca"], cav)))
+            jobs.append(("(chain_x, names_x, hb_%d, ca_%d)" % (fi, fi), (fr["full"], fr["simp"])))
+            where.append((ci, fi))
+        groups.append(("\n".join(prelude), jobs))
+        wheres.append(where)
+        ctx.count({"e2e": c, "snapshot": snap_no}, nontrivial=nontriv,
+                  bucket="e2e/%s%s%s%s" % (c["file"], "/del" if c.get("delete") else "", "/history" if c.get("history") else "",
+                                           "/coinciding-CA" if c.get("collapse_ca") else "") + ("/nontable-names" if c.get("rename_residues") else "") + ("/kappa-near-70" if c.get("aim_kappa") else ""))
+    outs = eval_xyz_groups(ctx, groups, "run_frame_xyz" + sfx)
+    njobs = sum(len(g[1]) for g in groups)
+    ctx.log("e2e: model evaluated on", njobs, "frames in", len(groups), "files")
+    if outs is None:
+        return
+    n_amb = 0
+    for (prelude, jobs), where, (bad, exc, sens) in zip(groups, wheres, outs):
+        # frames in which a bend flag that matters lies within the guard band (1e-3 degree) of the threshold: the model
+        # abstains (run_case_xyz = None); counted
+        n_amb += len(exc)
+        for ji in sorted(bad):
+            if ji in sens:
                 excluded += 1
                 continue
-            geom = [bool(g) for g in fr["geom"]]
-            skip = [bool(s) for s in r["skip"]]
-            for simp in (False, True):
-                jobs.append((coq_case(simp, n, r["chain"], skip, fr["hb"], geom), fr["simp" if simp else "full"]))
-                where.append((ci, fi, simp))
-        ctx.count({"e2e": c, "snapshot": snap_no}, nontrivial=nontriv,
-                  bucket="e2e/%s%s%s" % (c["file"], "/del" if c.get("delete") else "", "/history" if c.get("history") else ""))
-    bad = check_model(ctx, jobs, "run_case" + sfx)
-    if bad is None:
-        return
-    sens = sensitive(ctx, [jobs[i][0] for i in sorted(bad)]) if bad else set()
-    sens = {sorted(bad)[k] for k in sens}
-    for ji in sorted(bad):
-        if ji in sens:
-            excluded += 1
-            continue
-        ci, fi, simp = where[ji]
-        ctx.fail("md.compute_dssp deviates from the DSSP rules applied to md.kabsch_sander's H-bonds",
-                 dict(cases[ci], kind="e2e"), observed={"frame": fi, "simplified": simp, "codes": jobs[ji][1]},
-                 expected="coq: MD.Dssp.Model.run_case on (kabsch_sander H-bonds, chain ids, incomplete residues, kappa flags)",
-                 tags={"stage": "e2e", "simplified": simp, "history": bool(cases[ci].get("history"))})
+            ci, fi = where[ji]
+            ctx.fail("md.compute_dssp deviates from the DSSP rules applied to md.kabsch_sander's H-bonds",
+                     dict(cases[ci], kind="e2e"), observed={"frame": fi, "full": jobs[ji][1][0], "simplified": jobs[ji][1][1]},
+                     expected="coq: MD.Dssp.Bend.run_frame_xyz on (kabsch_sander H-bonds, chain ids, residue / atom names, exact CA coordinates)",
+                     tags={"stage": "e2e", "history": bool(cases[ci].get("history"))})
     ce = ctx.notes.setdefault("coverage_extra", {})
-    ce["excluded_frames_kappa_guard_or_sort"] = ce.get("excluded_frames_kappa_guard_or_sort", 0) + excluded
+    ce["e2e_frames_compared_with_exact_bend_test"] = ce.get("e2e_frames_compared_with_exact_bend_test", 0) + njobs - n_amb
+    ce["excluded_frames_kappa_guard_or_sort"] = ce.get("excluded_frames_kappa_guard_or_sort", 0) + excluded + n_amb
 
 
 def correspond(ctx):
     # the executable model must be built even when a theorem file failed (make stops launching jobs after a failure)
-    ok, log = ctx.make(["Gen/DsspTables.vo", "Dssp/Model.vo"])
+    ok, log = ctx.make(["Gen/DsspTables.vo", "Dssp/Model.vo", "Dssp/Bend.vo"])
     if not ok:
         ctx.break_("build:Dssp/Model.vo", log)
     tabs = build_tables(ctx)
